@@ -152,6 +152,34 @@ def merge_open(h):
     h.ensure('ith-trajectory-is-the-corresponding-input-trajectory', z3.And(*conds))
 
 
+@unit('C09', 'merge.inputs-with-the-same-file-name', FUNCS, replay='contracts.C09:replay_same_name')
+def merge_same_name(h):
+    """Inputs in different directories may carry the same file name (a/x.nc, b/x.nc).  They are moved into one
+    directory under their own names: either the merge refuses them untouched, or every input is still there
+    afterwards (no input may be overwritten by another)."""
+    files, gos, loaded, open_summary = setup_inputs(h, 2)
+    I = h.I
+    nc = I.hooks['nc_files']
+    for d, f in zip(('a', 'b'), files):
+        gos.dirs.add(d)
+        ds = nc.pop(f.name)
+        f.name = d + '/x.nc'
+        nc[f.name] = ds
+    h.assume(z3.And(to_z3(files[0].length) >= 1, to_z3(files[1].length) >= 1), 'both inputs hold trajectories')
+    h.summary(TS + '.open', open_summary)
+    cls = h.cls(TS)
+    before = {k: v for k, v in nc.items()}
+    try:
+        I.call(I.getattr(cls, 'merge'), ['out.aeic-store', [f.name for f in files]], {})
+    except PyExc as e:
+        h.ensure('same-name-inputs-are-refused-by-name', h.exc_is(e, 'ValueError'), note=repr(e.inst))
+        h.ensure('refused-merge-leaves-the-inputs-where-they-were', all(nc.get(k) is v for k, v in before.items()) and 'out.aeic-store/metadata.json' not in gos.json)
+        return
+    present = [v for v in nc.values()]
+    h.ensure('no-input-is-overwritten-by-another', all(any(v is b for v in present) for b in before.values()),
+             note=f'files after the merge: {sorted(nc)}; inputs were {sorted(before)}')
+
+
 @unit('C09', 'merge.refusals', FUNCS)
 def merge_refusals(h):
     kind = h.choice(2)
@@ -297,6 +325,44 @@ def location_lemma(h):
 
 
 # ------------------------------------------------------------------------------------------------
+def replay_same_name(payload):
+    """a/x.nc and b/x.nc merged: refused untouched, or all trajectories of both still readable."""
+    import os
+    import shutil
+    import tempfile
+    from AEIC.trajectories import TrajectoryStore
+    from contracts.C07 import _mk
+    tmp = tempfile.mkdtemp(prefix='c09n-', dir=os.environ.get('VERIF_SCRATCH'))
+    problems = []
+    try:
+        want = []
+        for d, base in (('a', 0), ('b', 100)):
+            os.mkdir(os.path.join(tmp, d))
+            TrajectoryStore.active_in_thread = None
+            with TrajectoryStore.create(base_file=os.path.join(tmp, d, 'x.nc')) as ts:
+                for i in range(2):
+                    ts.add(_mk(base + i, fid=base + i))
+                    want.append(float(1000 + base + i))
+        out = os.path.join(tmp, 'out.aeic-store')
+        TrajectoryStore.active_in_thread = None
+        try:
+            TrajectoryStore.merge(out, [os.path.join(tmp, 'a', 'x.nc'), os.path.join(tmp, 'b', 'x.nc')])
+        except ValueError:
+            for d in ('a', 'b'):
+                if not os.path.exists(os.path.join(tmp, d, 'x.nc')):
+                    problems.append(f'merge refused but {d}/x.nc is gone')
+            return dict(reproduced=bool(problems), observed=problems)
+        TrajectoryStore.active_in_thread = None
+        with TrajectoryStore.open(base_file=out) as ms:
+            got = [float(ms[i].starting_mass) for i in range(len(ms))]
+        if got != want:
+            problems.append(f'merged a/x.nc + b/x.nc reads {got}, the inputs held {want}: one input overwrote the other')
+        return dict(reproduced=bool(problems), observed=problems, required='merged store = concatenation of the inputs, nothing lost')
+    finally:
+        TrajectoryStore.active_in_thread = None
+        shutil.rmtree(tmp, ignore_errors=True)
+
+
 def replay(payload):
     import os
     import shutil
